@@ -37,7 +37,10 @@ is `skipRest`; `ElementID > 0x8000` is `readSpec`'s enterprise test; the `i > 0;
 `Version != …` / `Count < 1 || Count > 30` / `expectedLen > remainingLen` are the header validations; the sFlow
 sample / record loops and format switches are `Sflow.samples` / `flowRecords` / `counterRecords`;
 `HeaderLength > 1500`, `l != 16 && l != 28` are the F-series repairs' guards; the dissector length tests are the
-guards proved sufficient in `Props/C01Sflow`.  A changed bound, a new branch or a reordered test changes the list
+guards proved sufficient in `Props/C01Sflow`; of these, `hlen < IPv4HLen` is the lower bound in `Packet.ihlOctets` and
+`len(p.data) < hlen` the second test of `Packet.decodeIPv4` (F17 repair): it is the guard that covers the panic site
+`slice p.data[hlen:]` (`from? d hlen`; `hlen` is 20 … 60), and the `index p.data[0]` that computes `hlen` comes after
+the 20-octet test (`Packet.decodeIPv4_safe`).  A changed bound, a new branch or a reordered test changes the list
 and breaks `guards_reviewed` in the property that owns the file (C19 reader, C03 ipfix, C06 v9, C08 v5, C07 sflow+packet).
 -/
 namespace Vflow.Spec.Sites
